@@ -211,6 +211,13 @@ Proof.
     exists nm, t. repeat split; try assumption. apply in_or_app. left. exact Hin.
 Qed.
 
+(** intercept comes first: a statement that matches an intercept rule is answered with the
+    configured rows even if it names a listed table *)
+Lemma intercept_first pc user db ast b :
+  ic_present pc = true -> intercept_run (ic_enabled pc) user db (ic_rules pc) (map st_norm ast) = IReply b ->
+  execute_plugins (Some pc) user db ast = PIntercept b.
+Proof. intros Hp Hi. unfold execute_plugins. rewrite Hp, Hi. reflexivity. Qed.
+
 Lemma exec_disabled user db ast : execute_plugins None user db ast = PAllow.
 Proof. reflexivity. Qed.
 
@@ -1175,3 +1182,28 @@ Qed.
 
 Lemma parser_off_noop c ops : parser_on c = false -> forallb (fun m => negb (is_auto m)) ops = true -> quiet (trace c ops).
 Proof. intros H1 H2. apply parser_off_quiet_from; try assumption; [reflexivity|discriminate]. Qed.
+
+(* ------------------------------------------------------------------------- *)
+(** * 4. settings across a RELOAD                                              *)
+
+Definition rnew (o : rop) : rout :=
+  match o with RReload => ONone | RQ _ vnew | RBatch _ vnew => act vnew end.
+
+(** a session whose router holds the registered settings is judged by them, and stays so *)
+Lemma fresh_follows_new o : rstep true o = (match o with RReload => false | _ => true end, rnew o).
+Proof. destruct o as [|vo vn|vo vn]; cbn; try reflexivity. destruct vn; reflexivity. Qed.
+
+Lemma no_reload_follows_new ops : forallb (fun o => match o with RReload => false | _ => true end) ops = true ->
+  rrun true ops = map rnew ops.
+Proof.
+  induction ops as [|o r IH]; intros H; [reflexivity|].
+  cbn [forallb] in H. apply andb_true_iff in H. destruct H as [Ho Hr].
+  cbn [rrun map]. rewrite fresh_follows_new. destruct o; [discriminate| |]; rewrite (IH Hr); reflexivity.
+Qed.
+
+(** one forwarded statement (one checkout) refreshes the session *)
+Lemma forwarded_refreshes f o f' : rstep f o = (f', OFwd) -> f' = true.
+Proof.
+  destruct o as [|vo vn|vo vn]; cbn; [intros H; discriminate| |];
+    destruct f; destruct vo, vn; cbn; intros H; inversion H; reflexivity.
+Qed.
